@@ -686,7 +686,7 @@ func Spec() *vf.Check {
 			cov["states"] = m.Counters["history_states"] + m.Counters["lock_scheduling_points"]
 			cov["transitions"] = m.Counters["history_transitions"] + m.Counters["lock_scheduling_points"]
 			cov["evaluations"] = m.Counters["selections"] + m.Counters["history_transitions"] + m.Counters["lock_schedules"]
-			cov["distinct_nontrivial"] = m.Counters["selections"] - m.Counters["empty_selections"] + m.Counters["history_states"] + m.Counters["lock_scenarios"]
+			cov["distinct_nontrivial"] = m.Counters["selection_loads"] + m.Counters["history_states"] + m.Counters["lock_scenarios"] // non-empty selections loaded and compared (each on two datasets), distinct file states, lock scenarios
 			if m.Counters["lock_part_skipped_build_not_instrumented"] > 0 {
 				cov["exhaustive"] = false
 			}
